@@ -159,6 +159,9 @@ func runPeSign(sc M) {
 			case "sign":
 				_, err := p.Sign(testKey(ck[0]), testCert(ck[0], ck[1], ck[2]))
 				return err
+			case "signfail":
+				_, err := p.Sign(faultySigner{testKey(ck[0]), &depLog{faultAt: 1, kind: "error"}}, testCert(ck[0], ck[1], ck[2]))
+				return err
 			case "reparse":
 				np, err := authenticode.Parse(bytes.NewReader(p.Bytes()))
 				if err != nil {
